@@ -6,6 +6,8 @@ package main
 import (
 	"flag"
 	"fmt"
+	"io"
+	"log"
 	"math/rand"
 	"os"
 	"runtime"
@@ -79,6 +81,7 @@ func main() {
 		defer os.RemoveAll(d)
 	}
 	debug.SetTraceback("all")
+	log.SetOutput(io.Discard) // fabio logs through the std logger; monitors that need the log install their own writer
 	c := &ctx{R: rep.New(p.property, name, *seed, *tier), Seed: *seed, Tier: *tier, Dir: *dir,
 		Replay: *replay, Batch: *batch, Fabio: *fabio, Args: fs.Args(), Scale: *scale}
 	c.R.SetCounter("gomaxprocs", int64(runtime.GOMAXPROCS(0)))
